@@ -61,6 +61,12 @@ def fam_list():
               "abmd {\n name aB\n colvars d2\n forceConstant 2.0\n stoppingValue 3.0\n}\n", "off"))
     F.append(("two_meta", d1 + d2 + "metadynamics {\n name mA\n colvars d1\n hillWeight 0.5\n newHillFrequency 3\n hillWidth 2.0\n}\n"
               "metadynamics {\n name mB\n colvars d2\n hillWeight 0.25\n newHillFrequency 2\n hillWidth 1.5\n keepHills on\n}\n", "off"))
+    # adaptive linear bias, reweighted histogram of accelerated MD (the engine supplies the weight), thermodynamic integration
+    # with the previous-step force convention
+    F.append(("alb", d1 + "alb {\n colvars d1\n centers 4.0\n updateFrequency 4\n forceRange 1.0\n rateMax 0.5\n}\n", "off"))
+    F.append(("alb_2d", d1 + d2 + "alb {\n colvars d1 d2\n centers 4.0 1.5\n updateFrequency 4\n forceRange 1.0 2.0\n rateMax 0.5 0.5\n}\n", "off"))
+    F.append(("reweight_amd", "#esim accelmd 2.5\n" + d1 + "reweightaMD {\n colvars d1\n}\n", "off"))
+    F.append(("harm_ti_prev", d1 + "harmonic {\n colvars d1\n centers 5.0\n forceConstant 1.0\n writeTISamples on\n writeTIPMF on\n}\n", "prev"))
     F.append(("meta_harm_ti", d1 + "metadynamics {\n colvars d1\n hillWeight 0.5\n newHillFrequency 3\n hillWidth 2.0\n writeTIPMF on\n}\n", "same"))
     return F
 
@@ -86,14 +92,22 @@ def step_lines(h, t):
     return s
 
 
-def scen_A(cfg, tfmode, h, T, binary, save_at=None):
-    """uninterrupted run; save_at: a state is written (and discarded) after that step, as an engine writing restart files does"""
-    s = ctl.header(tfmode, extra="dt 1.0\ntemp 300.0" + ("\nenv COLVARS_BINARY_RESTART 1" if binary else "\nenv COLVARS_BINARY_RESTART 0"))
+def hdr_extra(cfg):
+    """engine-side settings a family needs: comment lines `#esim <command>` at the top of its configuration"""
+    return "".join("\n" + l[6:].strip() for l in cfg.splitlines() if l.startswith("#esim "))
+
+
+def scen_A(cfg, tfmode, h, T, binary, save_at=None, newrun_at=None):
+    """uninterrupted run; save_at: a state is written (and discarded) after that step, as an engine writing restart files does;
+    newrun_at: the engine's run ends after that step and a new run of the same session begins by computing that step again"""
+    s = ctl.header(tfmode, extra="dt 1.0\ntemp 300.0" + hdr_extra(cfg) + ("\nenv COLVARS_BINARY_RESTART 1" if binary else "\nenv COLVARS_BINARY_RESTART 0"))
     s += "module\nconfig <<EOC\n" + cfg + "EOC\ninit\n"
     for t in range(T + 1):
         s += step_lines(h, t)
         if save_at is not None and t == save_at:
             s += "savestr\n"
+        if newrun_at is not None and t == newrun_at:
+            s += "endrun\nnewrun\n" + step_lines(h, t)
     s += "savestr\n"
     return s
 
@@ -104,7 +118,7 @@ STATE_WRITE_SIDE_EFFECT = ("meta_gridfreq",)
 
 
 def scen_B1(cfg, tfmode, h, K, binary, prefix):
-    s = ctl.header(tfmode, extra="dt 1.0\ntemp 300.0" + ("\nenv COLVARS_BINARY_RESTART 1" if binary else "\nenv COLVARS_BINARY_RESTART 0"))
+    s = ctl.header(tfmode, extra="dt 1.0\ntemp 300.0" + hdr_extra(cfg) + ("\nenv COLVARS_BINARY_RESTART 1" if binary else "\nenv COLVARS_BINARY_RESTART 0"))
     s += "module\nprefix %s\nconfig <<EOC\n%sEOC\ninit\n" % (prefix, cfg)
     for t in range(K + 1):
         s += step_lines(h, t)
@@ -115,7 +129,7 @@ def scen_B1(cfg, tfmode, h, K, binary, prefix):
 def scen_B2(cfg, tfmode, h, K, T, binary, prefix, via, used=False):
     """used: the instance that loads the state is not fresh: it has run the first steps of the same history, the state is loaded
     between two runs of the engine (as with `run; cv load; run` in an engine's script) and replaces what it had accumulated"""
-    s = ctl.header(tfmode, extra="dt 1.0\ntemp 300.0" + ("\nenv COLVARS_BINARY_RESTART 1" if binary else "\nenv COLVARS_BINARY_RESTART 0"))
+    s = ctl.header(tfmode, extra="dt 1.0\ntemp 300.0" + hdr_extra(cfg) + ("\nenv COLVARS_BINARY_RESTART 1" if binary else "\nenv COLVARS_BINARY_RESTART 0"))
     s += "module\nconfig <<EOC\n%sEOC\n" % cfg
     if via == "file":
         s += "inprefix %s\ninit\n" % prefix
@@ -215,6 +229,9 @@ def run(tier, replay):
                                  via=("file" if (K % 5 != 4 or tier == "quick" and binary) else ("str" if not binary else "buf"))))
                 if jobs[-1]["via"] != "file" and K % 10 == 9:
                     jobs[-1]["used"] = True
+                if not binary and K % 4 == 2 and K < T and name not in STATE_WRITE_SIDE_EFFECT:
+                    # the degenerate resume: the run stops after step K and a new run follows in the same session (no reload)
+                    jobs.append(dict(kind="N", fam=name, cfg=cfg, tfm=tfm, h=h, binary=binary, K=K, fi=fi))
 
     def do(job):
         wd = os.path.join(c.work, "%s_%d" % (job["fam"], int(job["binary"])))
@@ -222,6 +239,9 @@ def run(tier, replay):
             r, ev, sp = common.run_esim("plain", scen_A(job["cfg"], job["tfm"], job["h"], T, job["binary"]), wd, "A", timeout=300)
             return dict(r=r, ev=ev, sp=[sp])
         K = job["K"]
+        if job["kind"] == "N":
+            r, ev, sp = common.run_esim("plain", scen_A(job["cfg"], job["tfm"], job["h"], T, job["binary"], newrun_at=K), wd, "N_%d" % K, timeout=300)
+            return dict(r=r, ev=ev, sp=[sp])
         prefix = os.path.join(wd, "b1_%d" % K)
         s1 = scen_B1(job["cfg"], job["tfm"], job["h"], K, job["binary"], prefix)
         via = job["via"]
@@ -269,6 +289,46 @@ def run(tier, replay):
             continue
         c.count()
         K = job["K"]
+        if job["kind"] == "N":
+            if not out["r"]["complete"]:
+                if out["r"]["sig"] or out["r"]["timeout"]:
+                    c.violation("crash_on_new_run:%s" % fam, "K=%d: signal %s timeout %s: %s" % (K, out["r"]["sig"], out["r"]["timeout"], out["r"]["err"][-400:]), out["sp"])
+                else:
+                    c.inconc("two-run session incomplete %s K=%d: %s" % (fam, K, out["r"]["err"][-200:]))
+                continue
+            sa = {e["it"]: e for e in a["ev"] if e["ev"] == "step"}
+            bad = None
+            seen_k = 0
+            n_ = 0
+            for e in [x for x in out["ev"] if x["ev"] == "step"]:
+                if e["it"] == K:
+                    seen_k += 1
+                if e["it"] <= K:
+                    continue
+                for f in STEP_FIELDS:
+                    d = cmp_val(sa[e["it"]].get(f), e.get(f), RTOL, f)
+                    if d:
+                        bad = "step %d: %s" % (e["it"], d)
+                        break
+                if bad:
+                    break
+                n_ += 1
+            if seen_k != 2:
+                c.inconc("two-run session %s K=%d: step K seen %d times" % (fam, K, seen_k))
+                continue
+            if not bad:
+                fa_ = [e for e in a["ev"] if e["ev"] == "savestr"][-1]["state"]
+                fn_ = [e for e in out["ev"] if e["ev"] == "savestr"][-1]["state"]
+                d = cmp_state(fa_, fn_, RTOL)
+                if d:
+                    bad = "final state: " + d
+            if bad:
+                c.violation("diverges_after_new_run:%s" % fam, "the run ends after step K=%d and a new run of the same session begins by computing step K again "
+                            "(nothing saved or loaded); compared with the single run: %s" % (K, bad), out["sp"] + a["sp"])
+                continue
+            c.bump("two_run_sessions_equal")
+            c.bump("post_stop_steps_compared", n_)
+            continue
         if out.get("ak") and out["ak"]["r"]["complete"]:
             # does the write itself change the later steps?  (uninterrupted run with vs without a discarded state at step K)
             a_plain = a
